@@ -225,7 +225,30 @@ func (c *CheckCtx) evaluate() {
 		byDir[s.jr.Job.Dir] = append(byDir[s.jr.Job.Dir], i)
 	}
 	reproduced := make([]bool, len(sats))
+	// race obligations: replayed one by one under the race detector
 	for dir, idxs := range byDir {
+		var rest []int
+		for _, i := range idxs {
+			if sats[i].obl.Replay.Failed[0] != "norace" {
+				rest = append(rest, i)
+				continue
+			}
+			_, out, _ := c.L.RunNative(dir, []string{paths[i]}, true)
+			ok := strings.Contains(out, "DATA RACE")
+			status := "reproduced under go test -race (WARNING: DATA RACE)"
+			if !ok {
+				status = "NOT reproduced under go test -race: " + lastLines(out, 3)
+			}
+			sats[i].obl.Replay.Native = status
+			writeReplay(sats[i].obl.Replay, c.P.ID, sats[i].obl.Name)
+			reproduced[i] = ok
+		}
+		byDir[dir] = rest
+	}
+	for dir, idxs := range byDir {
+		if len(idxs) == 0 {
+			continue
+		}
 		var files []string
 		for _, i := range idxs {
 			files = append(files, paths[i])
